@@ -962,13 +962,16 @@ fn client(t: usize, kind: Kind, api: Box<dyn Api>, script: &[SOp], sh: &Shared, 
                 let s = sh.serial.fetch_add(1, Ordering::SeqCst) + 1;
                 let v = Val { key: k, serial: s, tag: (*cost).clamp(0, 1000) as u32 + 1 };
                 sh.issued.lock().entry(k).or_default().insert(v);
+                let seq_before = sh.clear_seq.load(Ordering::SeqCst);
                 progress.enter(t, 1);
                 let r = a.insert(k as u64, v, *cost, Duration::from_millis(*ttl_ms as u64));
                 progress.leave(t);
                 hist(format!("insert({}, {}, cost {}, ttl {}ms) = {:?}", k, v, cost, ttl_ms, r));
                 match r {
                     Ok(true) => {
-                        sh.accepted.lock().push((v, sh.clear_seq.load(Ordering::SeqCst)));
+                        // a clear()/close() that overlapped the call leaves an odd or changed number
+                        let seq_after = sh.clear_seq.load(Ordering::SeqCst);
+                        sh.accepted.lock().push((v, if seq_after == seq_before { seq_before } else { u32::MAX }));
                         if kind == Kind::Barrier {
                             if touched.insert(k) {
                                 expect.insert(k, Some(v));
@@ -996,13 +999,15 @@ fn client(t: usize, kind: Kind, api: Box<dyn Api>, script: &[SOp], sh: &Shared, 
                 let s = sh.serial.fetch_add(1, Ordering::SeqCst) + 1;
                 let v = Val { key: k, serial: s, tag: (*cost).clamp(0, 1000) as u32 + 1 };
                 sh.issued.lock().entry(k).or_default().insert(v);
+                let seq_before = sh.clear_seq.load(Ordering::SeqCst);
                 progress.enter(t, 2);
                 let r = a.iip(k as u64, v, *cost);
                 progress.leave(t);
                 hist(format!("insert_if_present({}, {}) = {:?}", k, v, r));
                 match r {
                     Ok(true) => {
-                        sh.accepted.lock().push((v, sh.clear_seq.load(Ordering::SeqCst)));
+                        let seq_after = sh.clear_seq.load(Ordering::SeqCst);
+                        sh.accepted.lock().push((v, if seq_after == seq_before { seq_before } else { u32::MAX }));
                         if kind == Kind::Barrier {
                             if touched.insert(k) {
                                 expect.insert(k, Some(v));
@@ -1188,7 +1193,26 @@ fn quiescent_invariants(case: &StressCase, api: &Arc<Box<dyn Api>>, sh: &Arc<Sha
     if !ok {
         return None; // nothing can be said
     }
-    let snap = api.snapshot();
+    // The cleanup ticker keeps running: wait until it has nothing left to do (the virtual clock no
+    // longer moves, so once every due bucket has been swept two snapshots a few ticks apart agree)
+    let tick = Duration::from_millis(case.cfg.cleanup_ms.max(1));
+    let mut snap = api.snapshot();
+    let mut stable = false;
+    for _ in 0..200 {
+        std::thread::sleep(tick * 3 + Duration::from_millis(2));
+        let again = api.snapshot();
+        let same = again.costs == snap.costs
+            && again.entries.len() == snap.entries.len()
+            && again.entries.iter().zip(snap.entries.iter()).all(|(a, b)| a.index == b.index && a.value == b.value);
+        snap = again;
+        if same {
+            stable = true;
+            break;
+        }
+    }
+    if !stable {
+        return None;
+    }
     let sum: i64 = snap.costs.iter().map(|(_, c)| *c).sum();
     if sum != snap.used {
         return Some(SResult::violation(&["C01"], "used_eq_sum", format!("at quiescence the charged total {} != sum of charges {}", snap.used, sum)));
@@ -1322,7 +1346,7 @@ pub fn stress_strategy(kind: Kind, async_pct: u32) -> BoxedStrategy<StressCase> 
                     StressCase {
                         kind,
                         exec,
-                        cfg: SCfg { num_counters: 1000, max_cost: 1 << 40, buffer_size: bs, buffer_items: 64, metrics: false, ignore_internal_cost: true, cleanup_ms: 500 },
+                        cfg: SCfg { num_counters: 1000, max_cost: 1 << 40, buffer_size: bs, buffer_items: 64, metrics: false, ignore_internal_cost: true, cleanup_ms: 2 },
                         threads,
                         perturb,
                         drop_only: false,
